@@ -124,9 +124,15 @@ class SymNCO(REINFORCE):
                 # Reshape batch to [batch, n_start, n_aug]
                 if out.get("actions", None) is not None:
                     actions = regroup(out["actions"])
-                    out.update(
-                        {"best_multistart_actions": gather_by_index(actions, max_idxs)}
-                    )
+                    if max_idxs.dim() == 2:
+                        # [batch_size, n_start, n_aug, len]: for each augmentation its own best start
+                        idx = max_idxs[:, None, :, None].expand(
+                            -1, 1, -1, actions.size(-1)
+                        )
+                        best_ms_actions = actions.gather(1, idx).squeeze(1)
+                    else:
+                        best_ms_actions = gather_by_index(actions, max_idxs)
+                    out.update({"best_multistart_actions": best_ms_actions})
                     out["actions"] = actions
 
             # Get augmentation score only during inference
